@@ -81,6 +81,8 @@ def run_validate(ck, binp, cat, scripts, invariants, properties=(), tag="", chun
     starts = [i for i, e in enumerate(events) if e["ev"] == "Init"]
     if len(starts) != len(scripts):
         raise vkit.Infra("harness produced %d traces for %d scripts" % (len(starts), len(scripts)))
+    if ck.tier == "thorough":
+        chunks = 12
     chunks = max(1, min(chunks, len(scripts) // 20 or 1))
     per = (len(scripts) + chunks - 1) // chunks
     jobs = []
